@@ -11,6 +11,7 @@ import (
 	"net/http"
 	"path"
 	"strconv"
+	"strings"
 	"sync"
 	"time"
 
@@ -398,7 +399,10 @@ func handleStream(svr interface{}, serviceName string, desc *grpc.StreamDesc, st
 			}
 			statProto := st.Proto()
 			tr.Code = statProto.Code
-			tr.Message = statProto.Message
+			// the message is a proto3 string in the trailer: it must be valid
+			// UTF-8 or the trailer cannot be marshalled at all (the standard
+			// transport sanitizes status messages the same way)
+			tr.Message = strings.ToValidUTF8(statProto.Message, "\uFFFD")
 			tr.Details = statProto.Details
 		}
 
